@@ -17,6 +17,10 @@ from oracle import refdap4 as R
 
 LEVEL = "proof"
 
+QV = G.NAMES[:3] + G.QUOTED_ASCII + G.QUOTED_UNICODE
+QG = G.GROUP_NAMES[:2] + G.QUOTED_GROUPS
+QD = G.NAMES[:3] + G.QUOTED_DIMS
+
 BYTE_WITNESS = {"k": "attr", "name": "flag", "type": "Byte", "values": [["text", "007"]]}   # former finding (fix 78a1746)
 
 
@@ -68,14 +72,28 @@ def judge_spec(ctx, fns, spec, text, ds, dump, cls_of=None):
         return
     for path, v in declared:
         fq = R.fqn(path, v["name"])
+        qfq = G.dap_quote(fq) if path else G.dap_quote(v["name"])
         try:
             with warnings.catch_warnings():
                 warnings.simplefilter("ignore")
                 var = ds[fq] if path else ds[v["name"]]
+                qvar = ds[qfq]
         except Exception as e:
             ctx.oracle_fail("declared variable not addressable by its group path", dict(case, var=fq), err_class(e), fq,
-                            size=size)
+                            size=size, cls=cls_of(spec, path, v) if cls_of else None)
             continue
+        if not isinstance(qvar, BaseType):
+            ctx.oracle_fail("declared variable not addressable by its quoted group path", dict(case, var=fq),
+                            type(qvar).__name__, qfq, size=size)
+            continue
+        if var is not qvar:
+            ctx.oracle_fail("declared variable not addressable by its group path (declared names)", dict(case, var=fq),
+                            type(var).__name__, "the variable stored as " + qfq, size=size)
+            var = qvar
+        exp_path = G.dap_quote("/" + "/".join(path)) if path else None
+        if var.attributes.get("path") != exp_path:
+            ctx.oracle_fail("variable carries another group path than the one it is declared in", dict(case, var=fq),
+                            repr(var.attributes.get("path")), repr(exp_path), size=size)
         exp_dt = np.dtype(R.NUMERIC[v["type"]])
         dt = np.dtype(var.dtype)
         if (dt.kind, dt.itemsize) != (exp_dt.kind, exp_dt.itemsize):
@@ -127,7 +145,8 @@ def check_specs(ctx, fns, n, label, **kw):
         tree_cases.append(("dmr-spec-tree %s %s" % (G.hexs(spec["name"]), sx), G.norm_tree_sexp(et), {"spec": spec}))
         # what the spec declares (right-hand side of C11_parse) is what pydap returns, in document order
         vars_cases.append(("dmr-spec-vars " + sx, doc_order_dump(fns, spec, ds, dump), {"spec": spec}))
-        find_cases.append(("dmr-find " + G.xnode_sexp(et), find_dump(fns, spec, ds, dump), {"spec": spec}))
+        find_cases.append(("dmr-find %s (%s)" % (G.xnode_sexp(et), " ".join(G.hexs(k) for k in find_keys(spec))),
+                           find_dump(fns, spec, ds, dump), {"spec": spec}))
         for t in G.layout_tags(spec):
             ctx.tags[label + ":" + t] += 1
         judge_spec(ctx, fns, spec, text, ds, dump)
@@ -142,14 +161,23 @@ def check_specs(ctx, fns, n, label, **kw):
     ctx.correspond("dataset[group path/name] (findVar, C11_addressable)", find_cases)
 
 
+def find_keys(spec):
+    """the declared and the stored spelling of every declared variable's path, document order"""
+    keys = []
+    for p, v in R.walk_vars(spec):
+        key = R.fqn(p, v["name"]) if p else v["name"]
+        keys += [key, G.dap_quote(key)]
+    return keys
+
+
 def find_dump(fns, spec, ds, dump):
-    """dataset[<group path>/<name>] for every declared variable in document order: the key of what comes back"""
+    """dataset[<group path>/<name>] for every declared variable in document order, under its declared and its
+    stored spelling: the stored key of what comes back"""
     if ds is None:
         return dump
     BaseType = fns[3]
     out = "(ok"
-    for p, v in R.walk_vars(spec):
-        key = R.fqn(p, v["name"]) if p else v["name"]
+    for key in find_keys(spec):
         try:
             with warnings.catch_warnings():
                 warnings.simplefilter("ignore")
@@ -171,7 +199,7 @@ def doc_order_dump(fns, spec, ds, dump):
         by_key.setdefault(G.var_key(v), []).append(v)
     out = "(ok"
     for p, v in R.walk_vars(spec):
-        key = R.fqn(p, v["name"]) if p else v["name"]
+        key = G.dap_quote(R.fqn(p, v["name"]) if p else v["name"])
         got = by_key.get(key, [])
         out += " " + (G.rec_str(got[0]) if len(got) == 1 else "(%s x%d)" % (G.hexs(key), len(got)))
     if sum(len(x) for x in by_key.values()) != len(list(R.walk_vars(spec))):
@@ -230,8 +258,67 @@ def build_server_dataset(fns, spec, arrays, with_dimensions=True):
             ds.createGroup("/" + "/".join(path), dimensions=dims)
         for path, v in R.walk_vars(spec):
             fq = R.fqn(path, v["name"])
-            ds.createVariable(name=fq, data=arrays[fq], dims=tuple(R.var_dim_names(v)))
+            kw = {}
+            if v.get("srv_attrs"):
+                kw["attributes"] = {k: srv_value(val) for k, val in v["srv_attrs"]}
+            if v.get("maps"):
+                kw["Maps"] = tuple(v["maps"])
+            ds.createVariable(name=fq, data=arrays[fq], dims=tuple(R.var_dim_names(v)), **kw)
     return ds
+
+
+SRV_ATTR_NAMES = ["units", "scale", "valid", "n", "code", "long_name", "flag"]
+
+
+def gen_srv_attrs(rng):
+    """attributes as a server-side dataset holds them: Python ints, floats, strings (XML-special characters
+    included), numpy scalars, lists of them (two or more values: a one-element list is a scalar in a DMR)"""
+    out = []
+    for name in rng.sample(SRV_ATTR_NAMES, rng.choice([0, 0, 1, 2, 3])):
+        kind = rng.choice(["int", "float", "str", "npint", "npfloat", "ints", "floats", "strs"])
+        ints = [0, 1, -1, 7, 255, -32768, 2 ** 31, -2 ** 63, 2 ** 63 - 1, rng.randint(-1000, 1000)]
+        floats = [0.0, 1.5, -2.25, 1e20, 3e-05, float("inf"), -0.0, 6.02e23]
+        strs = ["m", "deg C", "a<b&c", "x_y", "K", "it's \"q\"", "1"]
+        if kind == "int":
+            val = rng.choice(ints)
+        elif kind == "float":
+            val = rng.choice(floats)
+        elif kind == "str":
+            val = rng.choice(strs)
+        elif kind == "npint":
+            val = rng.choice([{"np": "int8", "v": -3}, {"np": "int16", "v": 300}, {"np": "uint8", "v": 200},
+                              {"np": "uint16", "v": 65535}, {"np": "int32", "v": -7}, {"np": "uint32", "v": 9},
+                              {"np": "int64", "v": 5}, {"np": "uint64", "v": 2 ** 63 + 1}])
+        elif kind == "npfloat":
+            val = rng.choice([{"np": "float32", "v": 1.5}, {"np": "float64", "v": -2.25}])
+        elif kind == "ints":
+            val = [rng.choice(ints) for _ in range(rng.randint(2, 3))]
+        elif kind == "floats":
+            val = [rng.choice(floats) for _ in range(rng.randint(2, 3))]
+        else:
+            val = [rng.choice(strs) for _ in range(rng.randint(2, 3))]
+        out.append([name, val])
+    return out
+
+
+def srv_value(val):
+    """the Python object of a generated (JSON-serialisable) attribute value"""
+    if isinstance(val, list):
+        return [srv_value(x) for x in val]
+    if isinstance(val, dict):
+        return np.dtype(val["np"]).type(val["v"])
+    return val
+
+
+def srv_attr_equal(got, exp):
+    """same value and the same kind of type (int / float / str; numpy width is the DMR's business)"""
+    if isinstance(exp, list):
+        return isinstance(got, list) and len(got) == len(exp) and all(srv_attr_equal(g, e) for g, e in zip(got, exp))
+    if isinstance(exp, str):
+        return isinstance(got, str) and got == exp
+    if isinstance(exp, (float, np.floating)):
+        return isinstance(got, float) and repr(float(got)) == repr(float(exp))
+    return type(got) is int and got == int(exp)
 
 
 def check_server(ctx, fns, n):
@@ -249,8 +336,15 @@ def check_server(ctx, fns, n):
     for i in range(n):
         # the server renders shared dimensions only: named Dims, all numeric types
         spec = G.gen_spec(rng, mixed=False, attrs=False, max_depth=rng.choice([0, 1, 2, 3]))
-        for _, v in R.walk_vars(spec):
+        seen_vars = []
+        for pth, v in R.walk_vars(spec):
             v["dims"] = [d for d in v["dims"] if "ref" in d]
+            # served attributes and Maps (every second dataset, so that the plain stream stays as it was)
+            if i % 2:
+                v["srv_attrs"] = gen_srv_attrs(rng)
+                if seen_vars and rng.random() < 0.4:
+                    v["maps"] = [rng.choice(seen_vars) for _ in range(rng.randint(1, 2))]
+            seen_vars.append(R.fqn(pth, v["name"]))
         arrays = G.gen_arrays(rng, spec)
         with_dims = rng.random() < 0.8
         case = {"kind": "server", "spec": spec, "with_dimensions": with_dims}
@@ -290,9 +384,34 @@ def check_server(ctx, fns, n):
             if (dt.kind, dt.itemsize) != (exp.kind, exp.itemsize) or tuple(var.shape) != arrays[fq].shape:
                 ctx.oracle_fail("type/shape changed in the server DMR round trip", dict(case, var=fq),
                                 [str(dt), list(var.shape)], [str(exp), list(arrays[fq].shape)], size=len(text))
+            judge_srv_attrs(ctx, case, fq, var, v, len(text))
         ctx.count(("server", text), len(declared) > 0, tag="server:depth=%d" % R.max_depth(spec),
                   sample=None)
     ctx.correspond("responses/dmr.py dmr() = renderServer (element tree)", srv_cases)
+
+
+def judge_srv_attrs(ctx, case, fq, var, v, size):
+    got = {k: val for k, val in var.attributes.items() if k not in G.HIDDEN}
+    exp = dict((k, srv_value(val)) for k, val in v.get("srv_attrs", []))
+    if sorted(got) != sorted(exp) or not all(srv_attr_equal(got[k], exp[k]) for k in exp):
+        ctx.oracle_fail("served attributes change name, kind of type or value in the server DMR round trip",
+                        dict(case, var=fq), repr(got), repr(exp), size=size)
+    if list(var.attributes.get("Maps", ())) != list(v.get("maps", [])):
+        ctx.oracle_fail("served Maps change in the server DMR round trip", dict(case, var=fq),
+                        list(var.attributes.get("Maps", ())), list(v.get("maps", [])), size=size)
+
+
+def srv_val_sexp(x):
+    """one attribute value of the served dataset object as the Lean server model sees it (what
+    np.asarray(value).dtype says, and str(value))"""
+    if isinstance(x, (str, bytes, bool, np.bool_)):
+        return "(t %s)" % G.hexs(str(x))
+    dt = np.asarray(x).dtype
+    if dt.kind in "iu" and dt.itemsize in (1, 2, 4, 8):
+        return "(i %d %d %d)" % (1 if dt.kind == "u" else 0, {1: 0, 2: 1, 4: 2, 8: 3}[dt.itemsize], int(x))
+    if dt.kind == "f" and dt.itemsize in (4, 8):
+        return "(f %d %s)" % (dt.itemsize, G.hexs(str(x)))
+    return "(t %s)" % G.hexs(str(x))
 
 
 def srv_sexp(ds):
@@ -311,9 +430,13 @@ def srv_sexp(ds):
             elif isinstance(ch, BaseType):
                 dt = np.dtype(ch.dtype)
                 shape = tuple(ch.shape)
-                out.append("(var %s %s %s (%s))" % (G.hexs(ch.name), dt.kind, G.hexs(str(dt)),
-                           " ".join("(%s %d)" % (G.hexs(d), shape[i] if i < len(shape) else -1)
-                                    for i, d in enumerate(ch.dims))))
+                out.append("(var %s %s %s (%s) (%s) (%s))" % (
+                    G.hexs(ch.name), dt.kind, G.hexs(str(dt)),
+                    " ".join("(%s %d)" % (G.hexs(d), shape[i] if i < len(shape) else -1) for i, d in enumerate(ch.dims)),
+                    " ".join("(%s (%s))" % (G.hexs(k), " ".join(srv_val_sexp(x) for x in (
+                        list(val) if isinstance(val, (list, tuple)) else [val])))
+                        for k, val in ch.attributes.items() if k not in ("dims", "Maps")),
+                    " ".join(G.hexs(m) for m in ch.attributes.get("Maps", ()))))
         return " ".join(out)
     return "%s (%s) (%s)" % (G.hexs(ds.name), dims_of(getattr(ds, "dimensions", {})), kids(ds))
 
@@ -321,11 +444,14 @@ def srv_sexp(ds):
 def run(ctx):
     ctx.rule = ("seeded random abstract specs (groups to depth 3, dimensions at any level, repeated short names, "
                 "named/anonymous/mixed Dims, all numeric types, attributes of every atomic type in the three value "
-                "syntaxes with 0-3 values, Maps) rendered by harness/oracle/refdap4.py; a spec is non-trivial when it "
-                "has a group or more than one variable; distinct by document text; plus single-attribute documents and "
-                "server-side datasets with groups")
+                "syntaxes with 0-3 values, Maps; two sub-streams with variable, group and dimension names that DAP "
+                "quoting changes: blank, brackets, '.', '&', '%', non-ASCII) rendered by harness/oracle/refdap4.py; a "
+                "spec is non-trivial when it has a group or more than one variable; distinct by document text; plus "
+                "single-attribute documents and server-side datasets with groups, every second one with attributes "
+                "(ints, floats, strings, numpy scalars, lists) and Maps")
     ctx.assumptions = ["xml.etree.ElementTree (text -> element tree) is trusted: the model receives ET's tree",
-                       "names are ASCII without whitespace; attribute names avoid pydap's own keys path/Maps/checksum",
+                       "names do not start with 'dap4' and contain no '/'; strings travel as UTF-8 bytes; attribute "
+                       "names avoid pydap's own keys path/Maps/checksum",
                        "float(text) is Python's: float attribute texts are compared as repr(float)"]
     ctx.proof_phase()
     fns = load()
@@ -337,6 +463,9 @@ def explore(ctx, fns, tier):
     k = 1 if tier == "quick" else 12
     check_specs(ctx, fns, 250 * k, "flat", groups=False)
     check_specs(ctx, fns, 700 * k, "groups")
+    # names that DAP quoting changes (blank, brackets, `&`, `.`, `%`, non-ASCII) for variables, groups and dimensions
+    check_specs(ctx, fns, 120 * k, "quoted-flat", groups=False, var_names=QV, dim_names=QD)
+    check_specs(ctx, fns, 280 * k, "quoted-groups", var_names=QV, group_names=QG, dim_names=QD)
     check_attrs(ctx, fns, 600 * k)
     check_server(ctx, fns, 150 * k)
 
@@ -394,5 +523,6 @@ def replay_server(ctx, fns, c):
             dt, exp = np.dtype(var.dtype), arrays[fq].dtype
             if (dt.kind, dt.itemsize) != (exp.kind, exp.itemsize) or tuple(var.shape) != arrays[fq].shape:
                 ctx.oracle_fail("server", c, [str(dt), list(var.shape)], [str(exp), list(arrays[fq].shape)])
+            judge_srv_attrs(ctx, c, fq, var, v, 1)
     except Exception as e:
         ctx.oracle_fail("server", c, err_class(e), "round trip")
